@@ -29,6 +29,7 @@ def demo(meta, d):
     return rc, out[-1500:]
 def main():
     skip_suite = '--no-suite' in sys.argv
+    suite_only = '--suite-only' in sys.argv      # confirm build + suite + demo, keep the recorded xv results
     for d in [a for a in sys.argv[1:] if not a.startswith('--')]:
         d = os.path.abspath(d); meta = json.load(open(d + '/meta.json')); ensure_wt()
         res = {'at': time.strftime('%Y-%m-%d %H:%M'), 'repo_head': sh('git -C /repo rev-parse --short HEAD')[1].strip()}
@@ -40,8 +41,8 @@ def main():
             if not skip_suite:
                 ok, tail = build_and_test(); res['suite_with_change'] = dict(passed=ok, tail=tail[-300:])
             rc1, out1 = demo(meta, d); res['demo_with_change'] = dict(rc=rc1, tail=out1[-600:])
-            checks = {}
-            for pid in meta.get('check_properties', [meta['property']]):
+            checks = dict(meta.get('confirmed', {}).get('xv_checks_with_change', {})) if suite_only else {}
+            for pid in ([] if suite_only else meta.get('check_properties', [meta['property']])):
                 rcx, outx = sh('cd /verif && XV_REPLAYS=%s_replays XV_REPO=%s ./xv check %s --tier quick --no-evidence' % (WT, WT, pid), timeout=3600)
                 checks[pid] = dict(rc=rcx, lines=[l for l in outx.splitlines() if l.startswith(('VIOLATION', 'xv:'))][-6:])
             res['xv_checks_with_change'] = checks
